@@ -203,6 +203,9 @@ POSITIONS = ["colheader", "title", "subline", "footnote_table", "footnote_para",
 
 
 TWO_LINE = {"title": "TT", "subline": "SL", "page_header": "PH", "page_footer": "PF"}
+NORM_SENSITIVE = [chr(0x2126), chr(0x212A), chr(0x212B), "e" + chr(0x301), "A" + chr(0x30A), chr(0xF900), chr(0x2F800),
+                  chr(0xFB01), chr(0x1E9E), chr(0x130), chr(0x131), chr(0x17F), chr(0x3C2), chr(0xA0) + "x", chr(0x2003) + "x",
+                  chr(0x200B) + "x", chr(0xFEFF) + "x", chr(0x2028) + "x", chr(0xAD) + "x", chr(0x1F1E9) + chr(0x1F1EA)]
 
 
 def position_doc(rng, texts, convert_override, two_line=None):
@@ -236,11 +239,15 @@ def position_doc(rng, texts, convert_override, two_line=None):
         else:
             spec[comp]["text_convert"] = conv
     for comp, convs in (two_line or {}).items():
-        if comp == "alias":
+        if comp in ("alias", "autoheader"):
             continue
         tag = TWO_LINE[comp]
         spec[comp]["text"] = [payload(tag + "0"), payload(tag + "1")]
         spec[comp]["text_convert"] = list(convs)
+    if (two_line or {}).get("autoheader"):
+        # the header row is derived from the column NAME: the payload travels in the name
+        spec["df"]["cols"][0]["name"] = payload("H0c0")
+        spec["colheader"] = "default"
     if (two_line or {}).get("alias"):
         # the same column is the subline_by AND the page_by column: its value is shown twice per page, as the
         # heading paragraph and as the spanning row
@@ -270,11 +277,13 @@ def check_positions(ctx, rng, pool, fixed=None):
     if fixed:
         override = fixed["override"]
         two_line = fixed.get("two_line") or {}
-        tags += [TWO_LINE[c] + "1" for c in two_line if c != "alias"]
+        tags += [TWO_LINE[c] + "1" for c in two_line if c not in ("alias", "autoheader")]
     if not fixed and rng.random() < 0.25:
         two_line["alias"] = True
+    if not fixed and rng.random() < 0.3 and "colheader" not in override:
+        two_line["autoheader"] = True
     for comp in ([] if fixed else TWO_LINE):
-        if rng.random() < 0.4:
+        if rng.random() < 0.4 and comp not in two_line:
             two_line[comp] = [rng.random() < 0.5, rng.random() < 0.5]
             tags.append(TWO_LINE[comp] + "1")
     # decide per tag whether conversion is on, then draw characters accordingly
@@ -289,7 +298,7 @@ def check_positions(ctx, rng, pool, fixed=None):
     if alias and "SB0x0" in tags:
         tags.remove("SB0x0")
     for comp, convs in two_line.items():
-        if comp == "alias":
+        if comp in ("alias", "autoheader"):
             continue
         conv_of_tag[TWO_LINE[comp] + "0"], conv_of_tag[TWO_LINE[comp] + "1"] = convs
     texts = {}
@@ -299,6 +308,9 @@ def check_positions(ctx, rng, pool, fixed=None):
         cps = [c for c in cps if valid_cp(c, conv_of_tag[t]) and not (conv_of_tag[t] and c in (0x3D,))]
         # keep the tag readable: payload never starts with a digit/letter that would extend the tag
         texts[t] = " " + "".join(chr(c) for c in cps)
+        if rng.random() < 0.3:
+            # characters that Unicode normalisation (NFC/NFKC), case folding or whitespace trimming would change
+            texts[t] += rng.choice(NORM_SENSITIVE)
         if not conv_of_tag[t] and rng.random() < 0.4:
             # with conversion off the conversion triggers are ordinary characters
             texts[t] += rng.choice([" x^2", " y_1", " a>=b", " a<=b", " ^_", " >=<="])
